@@ -34,6 +34,8 @@ type Obligation struct {
 	Output string
 	Bounded string
 	File    string
+	Alts    []*Obligation // per-return-point split of a merged post-condition
+	HasAlts bool
 }
 
 type State struct {
@@ -121,6 +123,7 @@ type Frame struct {
 	loopOrd map[*ssa.BasicBlock]int
 	escapes map[*ssa.Alloc]bool
 	loopHeads map[int]*State
+	callOrd map[ssa.Instruction]int
 	results []Val // set while checking ensures
 	// current position for diagnostics
 	curInstr ssa.Instruction
